@@ -83,6 +83,7 @@ class ParseSim:
         self.no_result = []
         self.oracle_spawns = 0
         self.slow_oracle_jobs = 0
+        self.long_retries_left = 32
 
     # ---------------------------------------------------------------- inputs
     def gen_input(self, rng, gname):
@@ -509,14 +510,21 @@ class ParseSim:
         outs = self._batch("oracle", lines, ORACLE_TIMEOUT_S, NCPU)
         self.oracle_spawns += len(lines)
         silent = [i for i, o in enumerate(outs) if "res" not in o]
-        if silent:
-            # once more with the long budget, a few at a time
-            again = self._batch("oracle", [lines[i] for i in silent], LONG_TIMEOUT_S, 4)
-            self.oracle_spawns += len(silent)
-            for i, o in zip(silent, again):
+        while silent and self.long_retries_left > 0:
+            # once more with the long budget, eight at a time; when a whole group stays silent that is what these jobs do
+            # (a hang, not a slow machine) and the rest is not waited for; the total is capped per run
+            group, silent = silent[:8], silent[8:]
+            self.long_retries_left -= len(group)
+            again = self._batch("oracle", [lines[i] for i in group], LONG_TIMEOUT_S, 8)
+            self.oracle_spawns += len(group)
+            answered = 0
+            for i, o in zip(group, again):
                 outs[i] = o
                 if "res" in o:
                     self.slow_oracle_jobs += 1
+                    answered += 1
+            if answered == 0:
+                break
         for k, o in zip(missing, outs):
             if "res" not in o:
                 # no answer even in isolation (timeout, abort): kept as a result of its own, so that it is compared like
